@@ -309,3 +309,54 @@ Proof.
   repeat (apply Forall_cons; [split; [vm_compute; repeat (first [left; reflexivity | right])|exact Logic.I]|]).
   apply Forall_nil.
 Qed.
+
+(* ---------------- rename: "inside the source" is decided on path COMPONENTS (round 7) ----------------
+   MemoryPathIO.rename refuses a destination that lies inside the source (`destination.is_relative_to(source)`,
+   EINVAL like rename(2)).  The relation is on the list of names, not on the characters of the path strings. *)
+
+(* the test of the model is exactly "the destination is the source followed by further COMPONENTS" *)
+Theorem C18_rename_inside_is_componentwise : forall a b : path,
+  is_prefix a b = true <-> exists c : path, b = a ++ c.
+Proof. exact is_prefix_spec. Qed.
+Print Assumptions C18_rename_inside_is_componentwise.
+
+(* a sibling whose name extends the source's name by a non-empty suffix (report -> report.bak, d -> d2, dd) -- and
+   everything below such a sibling -- is NOT inside the source; nor is the shorter name inside the longer one.  For
+   every parent path (every depth), every name, every suffix. *)
+Theorem C18_rename_sibling_extension_not_inside : forall (ap : path) (an s : name) (rest : path),
+  s <> [] ->
+  is_prefix (ap ++ [an]) (ap ++ (an ++ s) :: rest) = false /\ is_prefix (ap ++ [an ++ s]) (ap ++ an :: rest) = false.
+Proof.
+  intros ap an s rest Hs. split; [apply sibling_extension_not_inside|apply sibling_truncation_not_inside]; exact Hs.
+Qed.
+Print Assumptions C18_rename_sibling_extension_not_inside.
+
+(* hence on the in-memory backend the rename of ANY existing entry (file or directory, any depth) to a missing
+   sibling name that extends its own succeeds and moves the entry, exactly as on the file-system backends *)
+Theorem C18_rename_sibling_extension_agree : forall t (ap : path) (an s : name) sn,
+  s <> [] -> lookup (ap ++ [an]) t = Some sn -> lookup (ap ++ [an ++ s]) t = None ->
+  step_agree (m_run t (Rename (ap ++ [an]) (ap ++ [an ++ s]))) (p_run t (Rename (ap ++ [an]) (ap ++ [an ++ s])))
+  /\ m_run t (Rename (ap ++ [an]) (ap ++ [an ++ s]))
+     = (Ok VUnit, upd ap (on_dir (put (an ++ s) sn)) (upd ap (on_dir (remove_first an)) t)).
+Proof.
+  intros t ap an s sn Hs L N. split.
+  - exact (proj1 (rename_sibling_extension_agree t ap an s sn Hs L N)).
+  - exact (m_rename_sibling_extension t ap an s sn Hs L).
+Qed.
+Print Assumptions C18_rename_sibling_extension_agree.
+
+(* non-vacuity / computed cases on the tree /d/{f,e/}, /g: d -> d2 (directory), d/f -> d/f.bak (file, depth 2): both
+   backends answer ok and hold the moved entry; d -> d/x (a true descendant) is refused by both, tree unchanged *)
+Definition C18_ext_tree : node :=
+  Dir [([100], Dir [([102], File [97;98;99]); ([101], Dir [])]); ([103], File [120])].
+Example C18_rename_sibling_extension_cases :
+  m_run C18_ext_tree (Rename [[100]] [[100;50]])
+    = (Ok VUnit, Dir [([103], File [120]); ([100;50], Dir [([102], File [97;98;99]); ([101], Dir [])])])
+  /\ fst (p_run C18_ext_tree (Rename [[100]] [[100;50]])) = Ok VUnit
+  /\ abs (snd (p_run C18_ext_tree (Rename [[100]] [[100;50]]))) = abs (snd (m_run C18_ext_tree (Rename [[100]] [[100;50]])))
+  /\ fst (m_run C18_ext_tree (Rename [[100];[102]] [[100];[102;46;98;97;107]])) = Ok VUnit
+  /\ snd (m_run C18_ext_tree (Rename [[100];[102]] [[100];[102;46;98;97;107]]))
+     = snd (p_run C18_ext_tree (Rename [[100];[102]] [[100];[102;46;98;97;107]]))
+  /\ m_run C18_ext_tree (Rename [[100]] [[100];[120]]) = (Err EINVAL, C18_ext_tree)
+  /\ p_run C18_ext_tree (Rename [[100]] [[100];[120]]) = (Err EINVAL, C18_ext_tree).
+Proof. vm_compute. repeat split; reflexivity. Qed.
